@@ -18,7 +18,7 @@ warnings.filterwarnings("ignore")
 
 def direct_labels(bb):
     """the C18 statement itself: 1-based rank of the cluster in the size-sorted list"""
-    cl = bb.get_cluster_mol_ids(sort=True)
+    cl = sorted(bb.get_cluster_mol_ids(sort=True), key=len, reverse=True)   # stable: a no-op when sorted
     lab = [0] * bb.num_fitted_fps
     for k, c in enumerate(cl, 1):
         for i in c:
@@ -103,14 +103,22 @@ def suite_labels(seed, tier):
             batches.append(rows)
         if tall:
             base = [1 if j % 2 == 0 else 0 for j in range(nf)]
+            over = (_case % 120 == 7)     # the big cluster passes 255 members
             fam = []
-            for _k in range(rng.choice([150, 200, 230])):
+            for _k in range(rng.choice([300, 340]) if over else rng.choice([150, 230])):
                 row = list(base)
-                if rng.random() < 0.3:
+                if rng.random() < (0.1 if over else 0.3):
                     row[rng.randrange(nf)] ^= 1
                 fam.append(row)
-            batches = [fam] + batches[:1]
-            cfg = {**cfg, "thr": min(cfg["thr"], 0.5), "crit": "diameter", "tol": None}
+            if over:
+                # a small family on the complementary bits FIRST and a high threshold: it stays a cluster
+                # of its own (iSIM of k equal rows plus a disjoint one is (k-1)/(k+1) < 0.95 for k <= 20)
+                other = [[1 - b for b in base] for _k in range(rng.randint(3, 20))]
+                batches = [other + fam] + batches[:1]
+                cfg = {**cfg, "thr": 0.95, "crit": "diameter", "tol": None}
+            else:
+                batches = [fam] + batches[:1]
+                cfg = {**cfg, "thr": min(cfg["thr"], 0.5), "crit": "diameter", "tol": None}
         wide = (_case % 60 == 13)         # dense, wide fingerprints: intersections beyond 255 bits
         if wide:
             nf = rng.choice([320, 512, 1000])
@@ -176,6 +184,9 @@ def c18_state_violation(bb):
     flat = sorted(int(i) for c in bb.get_cluster_mol_ids() for i in c)
     if flat != list(range(n)):
         return None                      # not a partition of 0..n-1: C01's business, C18 says nothing
+    sizes = [len(c) for c in bb.get_cluster_mol_ids(sort=True)]
+    if any(a < b for a, b in zip(sizes, sizes[1:])):
+        return f"the size-sorted cluster list is not largest first: sizes {sizes[:12]}"
     for sort in (True, False):
         cl = bb.get_cluster_mol_ids(sort=sort)
         truth = [0] * n
